@@ -796,7 +796,10 @@ def mp4(ctx, R):
     rc = prog.func("tdms.TdmsChannel._read_channel_data")
     cfg = ctx.cfg(rc)
     guard_nodes = nodes_reaching(ctx, rc, cfg, {"reader.TdmsReader.is_index_file_only"})
-    reads = cfg.where(lambda n: any(isinstance(c.func, ast.Attribute) and c.func.attr.startswith("read") and (dotted(c.func.value) or "").endswith("_reader") for c in node_calls(n)))
+    rdr = prog.cls("reader.TdmsReader")
+    # calls of the reader's read methods, whatever the receiver is called (the field, or a local that holds it)
+    reads = cfg.where(lambda n: any(isinstance(c.func, ast.Attribute) and c.func.attr.startswith("read") and (
+        (dotted(c.func.value) or "").endswith("_reader") or any(k is rdr for _f, k in resolve_call(prog, rc, rc.cls, c))) for c in node_calls(n)))
     # the guard must be able to raise: the node is a test with a raising branch, or a helper call whose body raises under the predicate
     def refuses(g):
         if g.kind == "test":
@@ -810,8 +813,11 @@ def mp4(ctx, R):
         return False
     guard = [g for g in guard_nodes if refuses(g)]
     ok = bool(guard) and all(cfg.dominated_by(r, lambda n: n in guard)[0] for r in reads)
-    R.check(ok and bool(reads), "tdms.TdmsChannel._read_channel_data::refuses index-only", rc.where(), "raises before any data is read when only the index is open",
-            "lazy channel reads are not refused for index-only files")
+    if not reads:
+        R.unrecognised("tdms.TdmsChannel._read_channel_data::refuses index-only", rc.where(), "no call of a read method of the reader in this function")
+    else:
+        R.check(ok, "tdms.TdmsChannel._read_channel_data::refuses index-only", rc.where(), "raises before any data is read when only the index is open",
+                "lazy channel reads are not refused for index-only files")
 
 
 @rule("NC1", "a field that can be None is not used in arithmetic or ordering without a None test on that path", floor=1)
